@@ -119,10 +119,10 @@ _cond("C16", [("MC_C16", "MC_C16_quick.cfg")],
       "6 classes; Dx,Dy in {1,2}; 1-2 kernels / noise units; Da in {2,3}; p(x) with R in {1,2}; non-zero offsets")
 
 _cond("C17", [("MC_C16", "MC_C17_quick.cfg")],
-      "PARTIAL CLAIM (see level_note). Clause 1: condition_on_x of every heteroscedastic class is specified exactly (mean Mx+b, covariance AA' + A_k diag(link(Wx+w0)) A_k' with link values as rationals or exp-atoms at exact points) and replayed; the precision / log-determinant / normalisation of the returned density are checked for coherence with the returned covariance on the code object (for Da = Dy and Da > Dy). Step link: integrate_log_conditional_y is specified as the exact expectation E[ln p(y|x)] through truncated Gaussian moments (Phi/phi atoms at rational arguments) for square A, any Dk <= Da, Dx in {1,2}, and replayed.",
+      "PARTIAL CLAIM (see level_note). Clause 1: condition_on_x of every heteroscedastic class is specified exactly (mean Mx+b, covariance AA' + A_k diag(link(Wx+w0)) A_k' with link values as rationals or exp-atoms at exact points) and replayed; the precision / log-determinant / normalisation of the returned density are checked for coherence with the returned covariance on the code object (for Da = Dy and Da > Dy). Step link: integrate_log_conditional_y is specified as the exact expectation E[ln p(y|x)] through truncated Gaussian moments (Phi/phi atoms at rational arguments) for square A, any Dk <= Da, Dx in {1,2}, and replayed. Tightness at zero input weights (exp and cosh-1 links, non-zero offsets, square A): the bound must equal the closed-form homoscedastic value (sigmoid / ln(1+e^t) / sech / ln cosh atoms) - gap exactly zero.",
       "4 link classes; Dy,Dx in {1,2}; Dk in {1,2}; Da in {2,3}; points on both sides of every hyperplane h_i = 0")
-PROPS["C17"]["level_note"] = ("NOT DECIDED by this technique: validity and tightness of the variational lower bounds for the exp, cosh-1 and "
-    "rectified-linear links (clauses 2-3 of the property): the true expectation is a Gaussian integral of ln(1+e^h)-type functions with no "
+PROPS["C17"]["level_note"] = ("NOT DECIDED by this technique: validity of the variational lower bounds for the exp, cosh-1 and rectified-linear links at "
+    "non-zero input weights and the quadratic decay of the gap (clauses 2-3 of the property, except the zero-weight equality): the true expectation is a Gaussian integral of ln(1+e^h)-type functions with no "
     "closed form in the atom algebra, and the bound goes through a transcendental fixed point; deciding it needs numerical quadrature, "
     "which is a different technique (DESIGN section 7). The step-link equality is decided for square A only (for Da > Dy the shipped "
     "decomposition is the known finding KF-2). " + _LN)
